@@ -191,7 +191,7 @@ fn bin_ops(fc: &FC, rep: &mut Report, rng: &mut Rng, a: &[u64], b: &[u64], all_f
     rep.class_if(la == lb, "sub: a == b");
     let top = &fc.p - (&fc.p >> 8usize);
     rep.class_if(la >= top && lb >= top, "mul: both operands in the top 2^-8 fraction of [0,p)");
-    let forms: Vec<u8> = if all_forms { (0..6).collect() } else { vec![(rng.next_u32() % 6) as u8, (rng.next_u32() % 6) as u8] };
+    let forms: Vec<u8> = if all_forms { (0..7).collect() } else { vec![(rng.next_u32() % 7) as u8, (rng.next_u32() % 7) as u8] };
     for &f in &forms {
         let d = || json!({"config": fc.name, "a": hex_limbs(a), "b": hex_limbs(b), "form": f});
         if let Some(r) = rep.total(&fc.sig("add", "total"), d, || fc.pf.bin(0, f, a, b)) {
@@ -262,7 +262,7 @@ fn inv_div(fc: &FC, rep: &mut Report, a: &[u64], b: &[u64]) {
         }
     }
     if let Some(ib) = fc.zp.inv(&vb) {
-        let f = (dg % 6) as u8;
+        let f = (dg % 7) as u8;
         if let Some(r) = rep.total(&fc.sig("div", "total"), || json!({"config": fc.name, "a": hex_limbs(a), "b": hex_limbs(b)}), || fc.pf.bin(3, f, a, b)) {
             rep.eval(mix(dg, 7), true);
             fc.chk(rep, "div", &r, &fc.zp.mul(&va, &ib), &[a, b]);
@@ -455,6 +455,15 @@ fn conv_ops(fc: &FC, rep: &mut Report, rng: &mut Rng, a: &[u64]) {
         rep.eval(mix(dg, 1), !va.is_zero());
         if from_limbs(&r) != va {
             rep.violation(fc.sig("into_bigint", "value"), json!({"config": fc.name, "a": hex_limbs(a), "got": hex_limbs(&r), "expected": va.to_string()}));
+        }
+    }
+    if let Some((bad, dbg)) = rep.total(&fc.sig("Field views / Debug", "total"), || json!({"config": fc.name, "a": hex_limbs(a)}), || fc.pf.misc(a)) {
+        rep.eval(mix(dg, 77), !va.is_zero());
+        for b in bad {
+            rep.violation(fc.sig("Field views", "value"), json!({"config": fc.name, "a": hex_limbs(a), "identity": b}));
+        }
+        if dbg != va.to_string() {
+            rep.violation(fc.sig("Debug", "value"), json!({"config": fc.name, "a": hex_limbs(a), "got": dbg, "expected": va.to_string()}));
         }
     }
     {
